@@ -143,8 +143,12 @@ def merge(base_authority, base_path, rel_path):
 
 def resolve(base, ref, strict=True):
     """RFC 3986 5.2.2 transform; returns the five components."""
-    bs, ba, bp, bq, bf = split(base)
-    rs, ra, rp, rq, rf = split(ref)
+    return resolve_parts(split(base), split(ref), strict)
+
+
+def resolve_parts(bparts, rparts, strict=True):
+    bs, ba, bp, bq, bf = bparts
+    rs, ra, rp, rq, rf = rparts
     if not strict and rs is not None and bs is not None and \
             rs.lower() == bs.lower():
         rs = None
@@ -232,6 +236,9 @@ def exp_urldefrag(s):
     return e, frag
 
 
+_base_cache = {}
+
+
 def _spellings(parts):
     """Acceptable spellings of a resolved reference: an empty fragment may
     or may not keep its '#' (RFC 3986 6.2.3 calls them equivalent)."""
@@ -257,24 +264,41 @@ def exp_urljoin(base, ref):
       form only: the RFC keeps them, file systems and common URL libraries
       collapse them;
     * a result with a non-empty authority under 'file:' is judged on form
-      only.
+      only;
+    * a network-path reference ('//host/…') with dot segments, and an empty
+      authority ('//' + nothing) against a base that has one, are judged on
+      form only (the statement is about file: URLs, whose authority is
+      empty).
     """
     if ref == "":
         # 5.2.2 gives the base without its fragment; returning the base is
         # equally common.  Bases used here carry no fragment.
         return ("exact", [base])
-    rs, ra, rp, rq, rf = split(ref)
-    bs, ba, bp, bq, bf = split(base)
+    rparts = split(ref)
+    bparts = _base_cache.get(base)
+    if bparts is None:
+        bparts = _base_cache[base] = split(base)
+    rs, ra, rp, rq, rf = rparts
+    bs, ba, bp, bq, bf = bparts
     same = rs is not None and bs is not None and rs.lower() == bs.lower()
     if rs is not None and not same:
         if has_dot_segment(rp):
             return ("form",)
-        return ("exact", [ref])
+        e = to_file_form(ref)       # a file: reference under another base
+        return e if e[0] != "unjudged" else ("exact", [ref])
     if "//" in rp or (ra is None and "//" in bp):
+        return ("form",)
+    if ra and has_dot_segment(rp):
+        # network-path reference ('//host/./x'): 5.2.2 removes the dot
+        # segments, common practice returns it untouched; not a file matter
+        return ("form",)
+    if ra == "" and ba:
+        # '//' + nothing: an empty authority replacing a non-empty one; the
+        # statement is about file: URLs, whose authority is empty anyway
         return ("form",)
     cands = []
     for strict in ((True, False) if same else (True,)):
-        parts = resolve(base, ref, strict)
+        parts = resolve_parts(bparts, rparts, strict)
         if parts[0] is not None and parts[0].lower() == "file" and \
                 parts[1]:
             return ("form",)
